@@ -47,6 +47,9 @@ colsel = z3.Function('colsel', Mat, I, I, Mat)       # A[:, j::n]
 cmulR = z3.Function('cmulR', Core, Mat, Core)        # np.einsum('ijq,ql', G, U)  (core times matrix on the right bond)
 fro = z3.Function('fro', Core, R)                    # np.linalg.norm(G)  (Frobenius norm of a core)
 foldLC = z3.Function('foldLC', Mat, I, I, Core)      # A.reshape(r1, n, cols(A))  (C order: a row permutation of foldL)
+sc = z3.Function('sc', R, Mat)                       # the 1 x 1 matrix [[x]]
+onesc = z3.Function('onesc', I, I, I, Core)           # np.ones([a, b, c])
+cset = z3.Function('cset', Core, I, R, Core)          # G with G[0, j, 0] = x   (for cores with r1 = r2 = 1)
 msum = z3.Function('msum', Core, Mat)                # np.sum(G, axis=1)
 wsum = z3.Function('wsum', Core, z3.ArraySort(I, R), Mat)   # np.einsum('rmq,m->rq', G, p)
 chain = z3.Function('chain', TT, IDX, I, Mat)        # sl(Y[0],i0) @ ... @ sl(Y[k],ik)
@@ -195,6 +198,20 @@ GROUPS['kron'] = [
       [mm(kron(a_, b_), kron(c_, e_))]),
     A([a_, b_], z3.Implies(z3.And(rows(a_) == 1, cols(a_) == 1, rows(b_) == 1, cols(b_) == 1),
                            ent(kron(a_, b_), 0, 0) == ent(a_, 0, 0) * ent(b_, 0, 0)), [kron(a_, b_)]),
+]
+
+# ---- rank-one cores, element by element (1 x 1 slices)
+GROUPS['elem'] = [
+    A([x_], z3.And(rows(sc(x_)) == 1, cols(sc(x_)) == 1, ent(sc(x_), 0, 0) == x_), [sc(x_)]),
+    A([x_, y_], mm(sc(x_), sc(y_)) == sc(x_ * y_), [mm(sc(x_), sc(y_))]),
+    A([x_, y_], smul(x_, sc(y_)) == sc(x_ * y_), [smul(x_, sc(y_))]),
+    zeros(1, 1) == sc(0),
+    A([m_, n_, k_], z3.And(d0(onesc(m_, n_, k_)) == m_, d1(onesc(m_, n_, k_)) == n_, d2(onesc(m_, n_, k_)) == k_), [onesc(m_, n_, k_)]),
+    A([n_, j_], sl(onesc(1, n_, 1), j_) == sc(1), [sl(onesc(1, n_, 1), j_)]),
+    A([G_, j_, x_], z3.And(d0(cset(G_, j_, x_)) == d0(G_), d1(cset(G_, j_, x_)) == d1(G_), d2(cset(G_, j_, x_)) == d2(G_)),
+      [cset(G_, j_, x_)]),
+    A([G_, j_, x_, k_], z3.Implies(z3.And(d0(G_) == 1, d2(G_) == 1), sl(cset(G_, j_, x_), k_) == z3.If(k_ == j_, sc(x_), sl(G_, k_))),
+      [sl(cset(G_, j_, x_), k_)]),
 ]
 
 # ---- the chain: val(Y, i) = chain(Y, i, d-1)[0, 0]
